@@ -55,6 +55,9 @@ PARAMS = [
     "&r: &i32", "[p, q]: [u8; 2]", "z: &mut Vec<u8>", "w: impl Fn(u8) -> u8", "k: &dyn ::core::fmt::Debug",
     "t: Option<Result<Vec<u8>, ()>>", "u: [u8; { 1 + 2 }]", "g: fn(u8) -> u8", "h: *const u8", "#[allow(unused)] at: u8",
     "l: &'static str", "m: Box<dyn Fn() + Send + 'static>", "o: (u8,)", "e: ()",
+    # bindings a lexical heuristic may stumble over: all-underscore names, non-ASCII letters, caseless scripts, upper case, digits
+    "(__, hh): (u32, u32)", "N(___): N", "N(épaisseur): N", "(xx, λ): (u8, u8)", "N(名): N", "N(_1): N", "N(__x9): N", "(Ok(vv) | Err(vv)): Result<i32, i32>",
+    "__: u8", "___: u8",
 ]
 
 RETS = ["", "-> i32", "-> ()", "-> Result<Vec<u8>, Box<dyn ::std::error::Error>>", "-> impl Clone", "-> !", "-> (u8, i8)",
